@@ -29,13 +29,13 @@ Proof.
   - apply (bnd_high w); [now apply nth_bnd|exact Hge].
 Qed.
 
-Theorem padding_zero_inv ops : forallb op_dom ops = true ->
+Theorem padding_zero_inv ops :
   let st := final_state bits k (init_m bits w) ops in
   last_word_clean (fst st) /\ last_word_clean (snd st)
   /\ length (fst st) = nw /\ length (snd st) = nw.
 Proof.
-  intros Hdom st.
-  destruct (invariant_along_history bits k Hbits ops (init_m bits w) (wf2_init bits k) Hdom) as (Hc & Ho).
+  intros st.
+  destruct (invariant_along_history bits k Hbits ops (init_m bits w) (wf2_init bits k)) as (Hc & Ho).
   fold st in Hc, Ho. repeat split; try now apply wf_last_word_clean.
   - now destruct Hc.
   - now destruct Ho.
